@@ -144,9 +144,12 @@ def _tla_unquote(s):
 
 def run_tlc(ctx, module, cfg, extra_files=(), workers=None, timeout=600, simulate=None,
             depth_first=False, mem=None, tag="@@VEC", files_text=None, check_deadlock=None,
-            count_states=True, xss=None, vec_filter=None):
+            count_states=True, xss=None, vec_filter=None, shards=None):
     """Run TLC on spec/<module>.tla with config text or file `cfg` in a scratch copy.
-    Returns TLCResult.  Lines `"<tag> json"` printed by the spec are collected in .vecs (decoded)."""
+    Returns TLCResult.  Lines `"<tag> json"` printed by the spec are collected in .vecs (decoded).
+    With shards=(prefix, n) the vectors are not kept in memory: TLC's output is read as it comes and the vectors are
+    written, one JSON document per line, to the n files prefix-<k>.ndjson in turn (.vec_paths, .nvecs); for runs whose
+    vectors do not fit (hundreds of thousands of load histories)."""
     d = tempfile.mkdtemp(prefix="tlc-", dir=ctx.scratch)
     for f in os.listdir(SPEC):
         if f.endswith(".tla"):
@@ -181,11 +184,44 @@ def run_tlc(ctx, module, cfg, extra_files=(), workers=None, timeout=600, simulat
         env["JAVA_TOOL_OPTIONS"] = " ".join(jopts)
     t0 = time.time()
     res = TLCResult()
-    try:
-        p = subprocess.run(["timeout", str(timeout)] + cmd, cwd=d, env=env,
-                           stdout=subprocess.PIPE, stderr=subprocess.STDOUT, text=True)
-    except Exception as e:  # pragma: no cover
-        raise MachineryError("cannot run tlc: %s" % e)
+    if shards:
+        prefix, nsh = shards
+        res.vec_paths = ["%s-%d.ndjson" % (prefix, k) for k in range(nsh)]
+        outs = [open(vp, "w") for vp in res.vec_paths]
+        head = '"' + tag + " "
+        rest = []
+        nvec = -1
+        kept = 0
+        try:
+            pp = subprocess.Popen(["timeout", str(timeout)] + cmd, cwd=d, env=env, stdout=subprocess.PIPE, stderr=subprocess.STDOUT, text=True)
+            for line in pp.stdout:
+                if line.startswith(head):
+                    nvec += 1
+                    if vec_filter is not None and not vec_filter(nvec):
+                        continue
+                    outs[kept % nsh].write(_tla_unquote(line)[len(tag) + 1:].replace("\n", " ") + "\n")
+                    kept += 1
+                else:
+                    rest.append(line.rstrip("\n"))
+            pp.wait()
+        except Exception as e:  # pragma: no cover
+            raise MachineryError("cannot run tlc: %s" % e)
+        finally:
+            for fh in outs:
+                fh.close()
+        res.nvecs = kept
+
+        class _P:
+            pass
+        p = _P()
+        p.returncode = pp.returncode
+        p.stdout = "\n".join(rest)
+    else:
+        try:
+            p = subprocess.run(["timeout", str(timeout)] + cmd, cwd=d, env=env,
+                               stdout=subprocess.PIPE, stderr=subprocess.STDOUT, text=True)
+        except Exception as e:  # pragma: no cover
+            raise MachineryError("cannot run tlc: %s" % e)
     res.wall = time.time() - t0
     res.rc = p.returncode
     out = p.stdout
@@ -239,7 +275,7 @@ def run_tlc(ctx, module, cfg, extra_files=(), workers=None, timeout=600, simulat
         ctx.transitions += res.generated
     res.nvec_total = nvec + 1
     ctx.tlc_runs.append({"module": module, "cfg": cfgname, "generated": res.generated,
-                         "distinct": res.distinct, "depth": res.depth, "vectors": len(res.vecs), "vectors_emitted": nvec + 1,
+                         "distinct": res.distinct, "depth": res.depth, "vectors": len(res.vecs) or getattr(res, "nvecs", 0), "vectors_emitted": nvec + 1,
                          "wall_s": round(res.wall, 1), "rc": res.rc, "error": res.error})
     res.dir = d
     return res
